@@ -242,3 +242,88 @@ func makeLeaf(t reflect.Type, seed uint64, plain, strcast bool) reflect.Value {
 	}
 	return v
 }
+
+// withSpare rebuilds v so that every slice in it -- at every level: behind
+// pointers, inside arrays and maps, in fields of structs and in elements of
+// slices of structs -- has `extra` elements of spare capacity beyond its
+// length, the spare region holding copies of the first element (non-zero
+// junk) rather than zeros.  Decoders that grow slices by appending hand such
+// values to ReverseTranslate; nothing beyond Len may show up in the result.
+// The length and the visible elements are unchanged.
+func withSpare(v reflect.Value, extra int) reflect.Value {
+	if extra <= 0 || !v.IsValid() {
+		return v
+	}
+	t := v.Type()
+	switch t.Kind() {
+	case reflect.Pointer:
+		if v.IsNil() {
+			return v
+		}
+		p := reflect.New(t.Elem())
+		p.Elem().Set(withSpare(v.Elem(), extra))
+		return p
+	case reflect.Slice:
+		if v.IsNil() {
+			return v
+		}
+		n := v.Len()
+		s := reflect.MakeSlice(t, n+extra, n+extra)
+		for i := 0; i < n; i++ {
+			s.Index(i).Set(withSpare(v.Index(i), extra))
+		}
+		for i := n; i < n+extra; i++ {
+			if n > 0 {
+				s.Index(i).Set(withSpare(v.Index(0), extra))
+			} else {
+				s.Index(i).Set(junk(t.Elem()))
+			}
+		}
+		return s.Slice3(0, n, n+extra)
+	case reflect.Array:
+		a := reflect.New(t).Elem()
+		for i := 0; i < v.Len(); i++ {
+			a.Index(i).Set(withSpare(v.Index(i), extra))
+		}
+		return a
+	case reflect.Map:
+		if v.IsNil() {
+			return v
+		}
+		m := reflect.MakeMapWithSize(t, v.Len())
+		it := v.MapRange()
+		for it.Next() {
+			m.SetMapIndex(it.Key(), withSpare(it.Value(), extra))
+		}
+		return m
+	case reflect.Struct:
+		out := reflect.New(t).Elem()
+		out.Set(v)
+		for i := 0; i < t.NumField(); i++ {
+			if t.Field(i).IsExported() {
+				out.Field(i).Set(withSpare(v.Field(i), extra))
+			}
+		}
+		return out
+	}
+	return v
+}
+
+// junk is a non-zero value for the spare region of an empty slice (zero where
+// the type has no cheap non-zero value).
+func junk(t reflect.Type) reflect.Value {
+	v := reflect.New(t).Elem()
+	switch t.Kind() {
+	case reflect.Int, reflect.Int8, reflect.Int16, reflect.Int32, reflect.Int64:
+		v.SetInt(77)
+	case reflect.Uint, reflect.Uint8, reflect.Uint16, reflect.Uint32, reflect.Uint64, reflect.Uintptr:
+		v.SetUint(77)
+	case reflect.Float32, reflect.Float64:
+		v.SetFloat(7.5)
+	case reflect.String:
+		v.SetString("junk")
+	case reflect.Bool:
+		v.SetBool(true)
+	}
+	return v
+}
